@@ -214,10 +214,159 @@ def constructOffsetB (base : Int) : Fmt → Cls → Int → Int → Int
   | _, .badParam, i, _ => (i + base) - 1
   | _, .badXref, i, j => getLineno none [⟨some (i + base), some j⟩]
 
+/-- what the parser itself stores for a markup error of the block on cleaned line `i`
+(`ParseError._linenum`): epytext `Token.startline`; reStructuredText docutils' line, unchanged -/
+def errorStoredLinenum (base : Int) : Fmt → Int → Int
+  | .epytext, i => i
+  | _, i => i + base
+
+/-- what the parser stores as `Field.lineno` for a field starting on cleaned line `i` -/
+def fieldStoredLineno (base : Int) : Fmt → Int → Int
+  | .epytext, i => i
+  | _, i => (i + base) - 1
+
 /-- docutils numbers lines from 1 (`base` above) -/
 def docutilsBase : Int := 1
 
 def constructOffset (fmt : Fmt) (cls : Cls) (i j : Int) : Int := constructOffsetB docutilsBase fmt cls i j
+
+/-! ## string literals as written: continuation lines, `\\n` escapes, implicit concatenation
+
+`extract_docstring_linenum`'s docstring: "This approximation is correct if the docstring does not
+contain explicit newlines ('\\n') or joined lines ('\\' at end of line)".  The body of a (possibly
+implicitly concatenated) string literal is a sequence of pieces: -/
+
+inductive Piece
+  | ch (c : Char)   -- an ordinary character of the value (not a newline)
+  | nl              -- a physical newline inside a triple-quoted literal: `'\n'` in the value
+  | cont            -- a physical newline that leaves nothing in the value: backslash-newline, or the
+                    -- line break between two implicitly concatenated literals
+  | escNl           -- the escape `\n`: `'\n'` in the value, no physical newline
+  deriving DecidableEq, Repr, Inhabited
+
+def Piece.value : Piece → List Char
+  | .ch c => [c]
+  | .nl => ['\n']
+  | .cont => []
+  | .escNl => ['\n']
+
+def Piece.physNl : Piece → Nat
+  | .nl => 1 | .cont => 1 | _ => 0
+
+def Piece.valNl : Piece → Nat
+  | .nl => 1 | .escNl => 1 | _ => 0
+
+/-- the string value CPython builds -/
+def valueOf (ps : List Piece) : List Char := ps.flatMap Piece.value
+
+def physNls (ps : List Piece) : Nat := (ps.map Piece.physNl).sum
+def valNls (ps : List Piece) : Nat := (ps.map Piece.valNl).sum
+def conts (ps : List Piece) : Nat := (ps.filter (· = .cont)).length
+def escNls (ps : List Piece) : Nat := (ps.filter (· = .escNl)).length
+
+/-- physical line of piece `k` (the literal starts on line `sl`) -/
+def physLineAt (sl : Nat) (ps : List Piece) (k : Nat) : Nat := sl + physNls (ps.take k)
+
+/-- index of the value line piece `k` is on (`value[:pos].count('\n')`) -/
+def valueLineAt (ps : List Piece) (k : Nat) : Nat := valNls (ps.take k)
+
+/-! ## `epydoc.docutils.get_lineno` with the `rawsource` search spelled out -/
+
+/-- `hay.index(needle)` when `needle in hay` -/
+def findSub (needle : List Char) : List Char → Option Nat
+  | [] => if needle.isEmpty then some 0 else none
+  | c :: cs =>
+    if needle.isPrefixOf (c :: cs) then some 0
+    else (findSub needle cs).map (· + 1)
+
+structure RawAnc where
+  line : Option Int
+  rawsource : List Char
+  deriving Repr
+
+/-- `parent_rawsource = _node.rawsource or None`, `node_rawsource = node.rawsource or None`; when both
+exist and the node's is found: `parent_rawsource[:index].count('\n')` -/
+def ancOf (nodeRaw : List Char) (a : RawAnc) : Anc :=
+  ⟨a.line,
+   if a.rawsource.isEmpty || nodeRaw.isEmpty then none
+   else (findSub nodeRaw a.rawsource).map fun i => ((newlines (a.rawsource.take i) : Nat) : Int)⟩
+
+def getLinenoRaw (nodeLine : Option Int) (nodeRaw : List Char) (ancs : List RawAnc) : Int :=
+  getLineno nodeLine (ancs.map (ancOf nodeRaw))
+
+/-! ## `--process-types`: warnings of a type field
+
+`markup.processtypes`: `append_warnings(body.warnings, errs, lineno=field.lineno+1)` creates
+`ParseError(warn, linenum=field.lineno + 1)`; `field.lineno` is already 0-based. -/
+
+def typeWarningOffset (fieldLineno : Int) : Int := reportErrorsOffset (some (fieldLineno + 1))
+
+/-! ## an attribute documented by a field of its class and / or by its own docstring
+
+`extract_fields` (run when the class / module docstring is seen, before the body) gives the
+attribute `parsed_docstring = field.body()` and, `if not attrobj.docstring_lineno`, the line of the
+field.  A later `setDocstring` (the string after the assignment) overwrites `docstring` and
+`docstring_lineno` but leaves `parsed_docstring`.  `ensure_parsed_docstring` then finds
+`parsed_docstring` already set, so the *field's* text is rendered, with `source = obj` because the
+object has a docstring of its own (`source = obj.parent` only when it has none). -/
+
+structure AttrDoc where
+  docstringLineno : Int := 0
+  hasOwnDocstring : Bool := false
+  parsedFromField : Bool := false
+  deriving Repr, Inhabited, DecidableEq
+
+def AttrDoc.extractField (a : AttrDoc) (classDl fieldLineno : Int) : AttrDoc :=
+  { a with docstringLineno := if a.docstringLineno = 0 then classDl + fieldLineno else a.docstringLineno
+           parsedFromField := true }
+
+def AttrDoc.setDocstring (a : AttrDoc) (dl : Int) : AttrDoc :=
+  { a with docstringLineno := dl, hasOwnDocstring := true }
+
+/-- whose text is rendered: `true` = the field's -/
+def AttrDoc.rendersField (a : AttrDoc) : Bool := a.parsedFromField
+
+/-- `docstring_lineno` of the object the problems are reported on: the attribute when it has a
+docstring of its own (`get_docstring` returns it as source), else its parent -/
+def AttrDoc.reportBase (a : AttrDoc) (classDl : Int) : Int :=
+  if a.hasOwnDocstring then a.docstringLineno else classDl
+
+/-- line reported for a cross-reference in the rendered text; `off` = `get_lineno` of the reference:
+relative to the class docstring for the field's text, to the own docstring otherwise -/
+def AttrDoc.xrefLine (a : AttrDoc) (classDl off : Int) : Int := a.reportBase classDl + off
+
+/-! ## napoleon: a parameter section (`Args:` / `Parameters`) as the converter rewrites it
+
+Lines before the section are copied one for one.  google: the header line disappears; an entry
+`name (type): desc` + `cont` continuation lines becomes `:param name: desc` + the continuation
+lines + (`:type name: type` when typed).  numpy: the two header lines disappear; an entry
+`name : type` + `desc` description lines becomes `:param name: …` taking `max desc 1` lines +
+(`:type name: type` when typed). -/
+
+structure Entry where
+  typed : Bool
+  extra : Nat      -- google: continuation lines; numpy: description lines
+  deriving Repr, Inhabited
+
+def Entry.inLines (_numpy : Bool) (e : Entry) : Nat := 1 + e.extra
+def Entry.paramLines (numpy : Bool) (e : Entry) : Nat := if numpy then max e.extra 1 else 1 + e.extra
+def Entry.outLines (numpy : Bool) (e : Entry) : Nat := e.paramLines numpy + (if e.typed then 1 else 0)
+
+def headerLines (numpy : Bool) : Nat := if numpy then 2 else 1
+
+/-- input line (0-based, cleaned docstring) of entry `k`; `hdr` = line of the section header -/
+def entryInLine (numpy : Bool) (hdr : Nat) (es : List Entry) (k : Nat) : Nat :=
+  hdr + headerLines numpy + ((es.take k).map (Entry.inLines numpy)).sum
+
+/-- line of `:param name:` of entry `k` in the converted text -/
+def paramOutLine (numpy : Bool) (hdr : Nat) (es : List Entry) (k : Nat) : Nat :=
+  hdr + ((es.take k).map (Entry.outLines numpy)).sum
+
+/-- line of `:type name:` of entry `k` in the converted text (when typed) -/
+def typeOutLine (numpy : Bool) (hdr : Nat) (es : List Entry) (k : Nat) : Nat :=
+  paramOutLine numpy hdr es k + ((es[k]?).map (Entry.paramLines numpy)).getD 0
+
+def typedCount (es : List Entry) : Nat := (es.filter (·.typed)).length
 
 /-! ## `Documentable.report` -/
 
